@@ -23,6 +23,11 @@ def run_case(rp, tasks, calls):
     for t in tasks:
         o = stubs.make_task(rp, tm, 'task.%06d' % t['uid'], t['state'],
                             pilot=None if t['pilot'] is None else 'pilot.%04d' % t['pilot'])
+        if t.get('service'):
+            # a service task; 'up': its startup info was already delivered (service_up -> _set_info)
+            o._descr.mode = rp.TASK_SERVICE
+            if t['service'] == 'up':
+                o._set_info({'addr': 'tcp://x:1'})
         objs.append(o)
     del tm.advanced[:]
     err = None
@@ -165,7 +170,8 @@ def run(ctx):
             r = rng.random()
             st = rng.choice(tsts) if r < 0.8 else rng.choice(['DONE', 'FAILED', 'CANCELED'])
             tasks.append({'uid': i, 'state': st,
-                          'pilot': None if rng.random() < 0.2 else rng.randrange(npil)})
+                          'pilot': None if rng.random() < 0.2 else rng.randrange(npil),
+                          'service': rng.choice([None, None, None, 'up', 'starting'])})
         calls = []
         for _ in range(rng.randint(1, 3)):
             pids = rng.sample(range(npil), rng.randint(1, npil))
@@ -176,7 +182,7 @@ def run(ctx):
     dist = {'own': 0, 'bystander_other': 0, 'bystander_final': 0, 'unbound': 0}
     for tasks, calls in cases:
         out, pubs, err = run_case(rp, tasks, calls)
-        op = {'op': 'pilotcbs', 'tasks': [dict(t, detail=None) for t in tasks],
+        op = {'op': 'pilotcbs', 'tasks': [dict({k: v for k, v in t.items() if k != 'service'}, detail=None) for t in tasks],
               'calls': [[list(x) for x in c] for c in calls]}
         ops.append(op)
         impl.append(['err', err] if err else
